@@ -55,7 +55,26 @@ ASSUMPTIONS = [
     "statement C10_rejects_partial carries it as an explicit hypothesis)",
     "MD5/SHA-2/AES are the functions hashlib/cryptography compute; AES-CBC decrypt inverts encrypt for equal key/IV",
 ]
-STATEMENT_STATUS: Dict[str, str] = {}
+STATEMENT_STATUS: Dict[str, str] = {
+    "rc4_involution": "proved (every key, every data); rc4_involution_except for Arcfour's own API",
+    "objkey_agree": "proved; objkey_agree_aes needs key >= 11 bytes (pdfminer counts the sAlT in min(len,16))",
+    "computeKey_is_alg2": "proved: compute_encryption_key (constants regenerated from pdfdocument.py) = ISO Algorithm 2",
+    "user_pw_accepts": "proved for R2-R4, any P >= -2^32, ID, EncryptMetadata, key length (md5 digests 16 bytes)",
+    "owner_pw_accepts": "proved for R2-R4 (owner_recovers_user: 20 RC4 layers peeled by rc4_involution)",
+    "authenticate_user_accepts": "proved (Length >= 8, P != 0, Latin-1 password)",
+    "r56_user_accepts": "proved for the user branch; r56_authenticate_user_partial: full authenticate() under the "
+                        "explicit hypothesis that the owner validation hash does not collide for the user password",
+    "r56_owner_accepts": "proved; r56_authenticate_owner proved",
+    "r6_fuel_suffices": "proved unconditionally (the loop of _r6_password ends by round 288)",
+    "C10_roundtrip_bytes": "proved for RC4/AESV2/AESV3/Identity, every objid/genno/IV, padding removed",
+    "C10_roundtrip": "proved for whole objects (strings, containers, stream dictionaries, Metadata rule, XRef exemption)",
+    "once_only": "once_only_not_elsewhere / once_only_xref / once_only_string proved; a counting (trace) formulation is future work",
+    "perms_bits": "proved (bits 3/4/5 of the stored P); perms_of_signed_P relates signed and unsigned P",
+    "C10_rejects_partial": "partial: rejection of other passwords under two explicit no-collision hypotheses "
+                           "(cryptographic assumption); rejects_non_latin1, r56_rejects_partial, r6_rejects_saslprep_refused proved",
+    "C10_aes_padding_cex": "proved counter-example for the pinned (pre-fix) AES decryption",
+    "SASLprep, MD5, SHA-2, AES": "abstract parameters (Prims); not modelled",
+}
 
 CLASSIFIERS = {
     "c10_aes_padding_left": lambda f: f.tags.get("kind") == "aes-padding",
@@ -766,7 +785,7 @@ def run(ctx: C.Ctx) -> None:
     run_samples(ctx)
     kinds = ["r2", "r3", "r4rc4", "r4aes", "r4id", "r5", "r6"]
     cases: List[Case] = []
-    n = ctx.n(70, 2500)
+    n = ctx.n(120, 4000)
     for i in range(n):
         if not ctx.time_left():
             ctx.notes.append("time budget reached after %d document cases" % i)
